@@ -285,17 +285,28 @@ fn sess_text(s: &Sess) -> String {
     format!("{}/{:?}", queries()[s.q].0.text(), s.mode)
 }
 
+fn runs(h: &[Sess]) -> Vec<(Sess, usize)> {
+    let mut r: Vec<(Sess, usize)> = vec![];
+    for s in h {
+        match r.last_mut() {
+            Some((l, n)) if l == s => *n += 1,
+            _ => r.push((*s, 1)),
+        }
+    }
+    r
+}
+
 pub fn sess_json(h: &[Sess]) -> Value {
-    // a long history of one repeated session is written as one entry with a repeat count
-    if h.len() > 50 && h.iter().all(|s| *s == h[0]) {
-        return json!([{"q": h[0].q, "mode": format!("{:?}", h[0].mode), "repeat": h.len()}]);
+    // a long history is written run-length encoded (one entry with a repeat count per run)
+    if h.len() > 50 {
+        return json!(runs(h).iter().map(|(s, n)| json!({"q": s.q, "mode": format!("{:?}", s.mode), "repeat": n})).collect::<Vec<_>>());
     }
     json!(h.iter().map(|s| json!({"q": s.q, "mode": format!("{:?}", s.mode)})).collect::<Vec<_>>())
 }
 
 fn hist_text(h: &[Sess]) -> Vec<String> {
-    if h.len() > 50 && h.iter().all(|s| *s == h[0]) {
-        return vec![format!("{} x {}", sess_text(&h[0]), h.len())];
+    if h.len() > 50 {
+        return runs(h).iter().map(|(s, n)| format!("{} x {}", sess_text(s), n)).collect();
     }
     h.iter().map(sess_text).collect()
 }
@@ -382,8 +393,18 @@ fn child_body(w: &mut Worker, hist: &[Sess], prop: &str, prebuild: bool) -> Valu
         if got != want || out != want_out {
             // alone (history of length 1) it is the single-session behaviour that is wrong:
             // C23 for the string modes; in a longer history it is C22
-            let (p, kind) = if hist.len() == 1 || i == 0 { ("C23", "alone") } else { ("C22", "after-history") };
             let timed = got.iter().any(|x| x.starts_with("Query timed out")) && !want.iter().any(|x| x.starts_with("Query timed out"));
+            // Under the C23 check a wrong solve / solve_all report is C23's whatever came before
+            // (the statement has no "first query of the process" clause); under the C22 check it
+            // is the dependence on the history that is charged.
+            let string_mode = matches!(s.mode, Mode::Solve | Mode::SolveAll);
+            let (p, kind) = if hist.len() == 1 || i == 0 {
+                ("C23", "alone")
+            } else if prop == "C23" && string_mode {
+                ("C23", "after-history")
+            } else {
+                ("C22", "after-history")
+            };
             let class = format!("{}{}:{}:{:?}{}", kind, if prebuild { "-prebuilt" } else { "" }, queries()[s.q].0.text().split('(').next().unwrap_or(""), s.mode, if timed { ":spurious-timeout" } else { "" });
             let before: Vec<String> = hist_text(&hist[..i]);
             viols.push(json!({"prop": p, "class": class, "msg": format!("session {} ({}) after {:?}: observed {:?} / output {:?}; on its own the query gives {:?} / output {:?}", i + 1, sess_text(s), before, got, out, want, want_out)}));
@@ -471,6 +492,19 @@ pub fn histories(prop: &str, tier: &str, f: &mut dyn FnMut(Vec<Sess>)) {
     let thorough = tier == "thorough";
     for s in &al {
         f(vec![*s]);
+    }
+    // long mixed histories: n cheap sessions (one epoch each), then solve / solve_all sessions across
+    // the point where a 16-bit count of queries wraps; and solve / solve_all alone that often
+    {
+        let cheap = Sess { q: 0, mode: Mode::NextOne };
+        for tail in [Sess { q: 0, mode: Mode::SolveAll }, Sess { q: 4, mode: Mode::Solve }] {
+            let mut h = vec![cheap; 65_000];
+            h.extend(vec![tail; if thorough { 2_000 } else { 600 }]);
+            f(h);
+            if prop == "C23" {
+                f(vec![tail; if thorough { 70_000 } else { 3_000 }]);
+            }
+        }
     }
     if prop == "C23" {
         return;
